@@ -1381,6 +1381,9 @@ func (h *H) start(facts map[string]json.RawMessage) {
 		c := sn.custom[u]
 		h.out.Emit(fmt.Sprintf("gcustom %s %s %d %s", u, scaled(c.DepositRatio), int64(*c.VotingPeriod/time.Second), scaled(c.Quorum)), "ok")
 	}
+	// the genesis staking state (bonded validators, their delegations): from here on the model computes the numbers the
+	// tallies read (delegations, slashes) and every `endblock` line is checked against the real staking keeper
+	h.out.Emit(fmt.Sprintf("gstaking %s %s", h.s.App.StakingKeeper.PowerReduction(h.ctx()), strings.Join(h.stakingWords(), " ")), "ok")
 }
 
 func defaultParams() mparams {
@@ -1648,11 +1651,14 @@ func (h *H) slash(val int, factor sdkmath.LegacyDec) {
 	if err != nil {
 		return
 	}
+	var serr error
 	if res := hx.Try(func() error {
-		_, err := sk.Slash(ctx, cons, ctx.BlockHeight(), v.GetConsensusPower(sk.PowerReduction(ctx)), factor)
-		return err
-	}); res == "ok" {
+		_, serr = sk.Slash(ctx, cons, ctx.BlockHeight(), v.GetConsensusPower(sk.PowerReduction(ctx)), factor)
+		return nil
+	}); res == "ok" && serr == nil {
 		h.out.Count("env:slash")
+		// an op of the staking model: tokens burnt = trunc(power·reduction · factor), shares untouched
+		h.out.Emit(fmt.Sprintf("slash %d %s", 100+val, factor.BigInt()), "ok "+h.observe().line)
 	}
 }
 
